@@ -135,7 +135,7 @@ func checkC09(tier, replay string) int {
 		"at the end the virtual clock is moved to just before / after each distinct deadline and read-only commands must hit / miss like the model. The fake L2 answers gete with remaining seconds or absolute time (both conventions). " +
 		"distinct_nontrivial = distinct (configuration, protocol, port mode, op-kind+TTL-class sequence)")
 	run.Assume("TTL classes are >= 1000 s apart; where rend derives absolute times from its own clock (chunked append/prepend) the tolerance is the case's real elapsed time + 2 s")
-	nseq := run.Pick(8, 150)
+	nseq := run.Pick(20, 240)
 	var cfgs []harness.ProxyCfg
 	for _, kind := range []string{"std", "chunked", "batched"} {
 		cfgs = append(cfgs, harness.ProxyCfg{L2: false, L1Kind: kind})
